@@ -407,5 +407,18 @@ func GenChainCfg(t *rapid.T, smallMTB bool) ChainCfg {
 	if smallMTB {
 		c.MTB = uint32(rapid.IntRange(8, 30).Draw(t, "mtb"))
 	}
+	if rapid.IntRange(0, 4).Draw(t, "vhist") == 0 {
+		// the number of validators changes at committee refresh heights (config ValidatorsHistory): the block at such
+		// a height is still signed by the old validators, the next one by the new ones
+		switch c.Profile {
+		case "V4C6":
+			c.ValidatorsHistory = map[uint32]uint32{0: 4, 6: uint32(rapid.SampledFrom([]int{1, 6, 2}).Draw(t, "vh1"))}
+			if rapid.Bool().Draw(t, "vh_second") {
+				c.ValidatorsHistory[12] = uint32(rapid.SampledFrom([]int{4, 1, 6}).Draw(t, "vh2"))
+			}
+		case "V1C3":
+			c.ValidatorsHistory = map[uint32]uint32{0: 1, uint32(3 * rapid.IntRange(1, 3).Draw(t, "vh_at")): uint32(rapid.SampledFrom([]int{3, 2}).Draw(t, "vh1"))}
+		}
+	}
 	return c
 }
